@@ -30,3 +30,36 @@ Theorem C09_ok_then_served :
       co_exec o2 = false /\ co_ret o2 = ROk v.
 Proof. exact C09w_ok_then_served. Qed.
 Print Assumptions C09_ok_then_served.
+
+(* with ANY entry limit, ttl and memory limit: an Ok (a result the store decision accepts) that is not
+   refused as oversize IS in the cache when the call returns, under every policy that cannot pick the
+   entry being stored (FIFO, LRU, and every policy of the async engine, which evicts before it
+   inserts), and the next call for the same arguments is served without running the body *)
+From CL Require Import Base SeqModel Spec Inv Wrapper PfSurvive.
+Theorem C09_ok_stored_under_limits :
+  forall w now s i,
+    wf_cfg (w_cfg w) = true -> InvA (w_cfg w) s ->
+    newest_safe (w_cfg w) = true -> fits (w_cfg w) (w_mem w) (ci_size i) = true ->
+    co_exec (snd (call w now s i)) = true -> store_decision w i = true ->
+    lookup (ci_key i) (st_store (fst (call w now s i))) =
+      Some (mkE (enc (ci_body i)) (ci_size i) (birth (w_cfg w) now) 0).
+Proof. exact call_stores_when_settled. Qed.
+Print Assumptions C09_ok_stored_under_limits.
+
+Theorem C09_ok_then_served_under_limits :
+  forall w now s i j,
+    wf_cfg (w_cfg w) = true -> InvA (w_cfg w) s ->
+    newest_safe (w_cfg w) = true -> fits (w_cfg w) (w_mem w) (ci_size i) = true ->
+    co_exec (snd (call w now s i)) = true -> store_decision w i = true ->
+    ci_key j = ci_key i -> (w_inval_on w = true -> ci_inv j = false) ->
+    co_exec (snd (call w now (fst (call w now s i)) j)) = false /\
+    co_ret (snd (call w now (fst (call w now s i)) j)) = dec (enc (ci_body i)).
+Proof. exact call_then_served. Qed.
+Print Assumptions C09_ok_then_served_under_limits.
+
+Theorem C09_oversize_not_stored :
+  forall c now k v sz s ch,
+    InvA c s -> fits c true sz = false ->
+    lookup k (st_store (insert c now true k v sz s ch)) = None.
+Proof. exact insert_oversize_not_stored. Qed.
+Print Assumptions C09_oversize_not_stored.
